@@ -637,7 +637,7 @@ class FPNum:
             while (self.e < -(e_bias-1)):
                 self.e += 1 
                 self.p = self.p << 1
-        elif (self.e >= e_mask):
+        elif (self.e + e_bias >= mask):
             self.infinity = True
         
     def reducePrecisionWithRounding(self, prec):
